@@ -389,6 +389,17 @@ func verifHosts(l *roundRobinLoadBalancer) []*Host { return l.hosts.Load().([]*H
 
 // Receive: a response goes to the request registered under its stream id - to that one only - and
 // the entry is removed; an unknown stream id is an error that closes only this connection.
+// C08 "plain and compressed sessions alike": the cached PREPARE frame is the frame as a client sent it - flags
+// and possibly compressed body included - so it can be replayed only on a connection that uses the compression
+// it was sent with. The cache key is a function of the connection's compression and the prepared id
+// (assumed: different compressions give different keys); a frame is stored under, and looked up by, the key of
+// the connection at hand.
+//@ func proxycore.ClientConn.preparedCacheKey [C08]
+//@   trusted
+//@   requires c != nil
+//@   ensures result == ufStr("prepared.key", c.compression, ufStr("hex", id))
+//@   modifies nothing
+
 //@ func proxycore.ClientConn.Receive [C01, C02, C08, C17]
 //@   local $crDecoded bool = false
 //@   local $crStream int16 = 0
@@ -399,9 +410,13 @@ func verifHosts(l *roundRobinLoadBalancer) []*Host { return l.hosts.Load().([]*H
 //@   local $crOrderOK bool = true
 //@   local $crReprepared bool = false
 //@   local $crExamined bool = false
+//@   local $crKey string = ""
+//@   local $crStoredUnderKey bool = true
 //@   requires c != nil && c.pending != nil && c.codec != nil && c.conn != nil && c.closingMu != nil && nolocks() && !$arrived
 //@   after frame.RawCodec.DecodeRawFrame#1 set $crDecoded = (result1 == nil); $crStream = result0.Header.StreamId; $crOpCode = result0.Header.OpCode; $arrived = (result1 == nil); $arrivedStream = result0.Header.StreamId
 //@   before proxycore.ClientConn.maybeCachePrepared#* set $crCached = true
+//@   after proxycore.ClientConn.preparedCacheKey#* set $crKey = result
+//@   before proxycore.PreparedCache.Store#* set $crStoredUnderKey = $crStoredUnderKey && arg0 == $crKey
 //@   before proxycore.ClientConn.maybePrepareAndExecute#1 set $crExamined = true
 //@   after proxycore.ClientConn.maybePrepareAndExecute#1 set $crReprepared = result
 //@   before proxycore.Request.OnResult#1 set $crDelivered = true; $crTarget = valof(recv); $crOrderOK = ($crOpCode != primitive.OpCodeResult || $crCached || c.preparedCache == nil)
@@ -416,6 +431,7 @@ func verifHosts(l *roundRobinLoadBalancer) []*Host { return l.hosts.Load().([]*H
 //@   ensures events-not-delivered: $crDecoded && $crOpCode == primitive.OpCodeEvent ==> !$crDelivered
 // C01 "never none": a response to a pending request is handed to that request - or has started its re-preparation
 //@   ensures errors-examined-before-delivery: $crDelivered && $crOpCode == primitive.OpCodeError && c.preparedCache != nil ==> $crExamined [C08]
+//@   ensures cached-under-the-connection-key: $crStoredUnderKey [C08]
 //@   ensures delivered-or-reprepared: $crDecoded && $crOpCode != primitive.OpCodeEvent && 0 <= $crStream && $crStream < MaxStreams && old(c.pending.$has)[$crStream] ==> $crDelivered || $crReprepared [C01]
 //@   modifies *, c.pending.$has, c.pending.$tag, c.pending.$val, $arrived, $arrivedStream
 
@@ -431,14 +447,19 @@ func verifHosts(l *roundRobinLoadBalancer) []*Host { return l.hosts.Load().([]*H
 //@   local $mpSent bool = false
 //@   local $mpSendOK bool = false
 //@   local $mpTried bool = false
+//@   local $mpKey string = ""
+//@   local $mpLoadKeyOK bool = true
 //@   requires c != nil && c.pending != nil && c.codec != nil && c.conn != nil && c.closingMu != nil && c.preparedCache != nil && raw != nil && raw.Header != nil && request != nil
 //@   requires well-formed-request: reqOK(request) [C17]
 //@   before frame.RawCodec.ConvertFromRawFrame#1 set $mpTried = true
 //@   after frame.RawCodec.ConvertFromRawFrame#1 set $mpDecoded = (result1 == nil); $mpMsg = result0.Body.Message
+//@   after proxycore.ClientConn.preparedCacheKey#* set $mpKey = result
+//@   before proxycore.PreparedCache.Load#* set $mpLoadKeyOK = $mpLoadKeyOK && arg0 == $mpKey
 //@   after proxycore.PreparedCache.Load#1 set $mpCached = result1
 //@   after proxycore.ClientConn.Send#1 set $mpSent = true; $mpSendOK = (result == nil)
 // C08 "the client never sees UNPREPARED while the statement is cached": every error answer to anything but a
 // re-prepare is decoded and looked at
+//@   ensures looked-up-by-the-connection-key: $mpLoadKeyOK && ($mpCached ==> $mpKey == ufStr("prepared.key", c.compression, ufStr("hex", as($mpMsg, *message.Unprepared).Id))) [C08]
 //@   ensures error-is-examined: !typeis(request, *proxycore.prepareRequest) ==> $mpTried [C08]
 //@   ensures not-unprepared: !$mpDecoded || !typeis($mpMsg, *message.Unprepared) ==> !result && !$mpSent
 //@   ensures not-cached: $mpDecoded && typeis($mpMsg, *message.Unprepared) && !$mpCached ==> !result && !$mpSent
